@@ -225,6 +225,11 @@ impl Check for C09 {
                         // a subpath begun implicitly by a LineTo right after Close (it starts at the
                         // closed subpath's first point, with the pattern restarted)
                         paths.push(PathSpec::new(vec![POp::M(a.0, a.1), POp::L(b.0, b.1), POp::L(c.0, c.1), POp::Z, POp::L(d.0, d.1)]));
+                        // a MoveTo exactly to the point the previous subpath ended on still starts a
+                        // new subpath (pattern restarted, caps instead of a join)
+                        paths.push(PathSpec::new(vec![POp::M(a.0, a.1), POp::L(b.0, b.1), POp::M(b.0, b.1), POp::L(c.0, c.1)]));
+                        // the stroked region does not depend on the path's own fill rule
+                        paths.push(PathSpec { evenodd: true, ops: vec![POp::M(a.0, a.1), POp::L(b.0, b.1), POp::L(c.0, c.1), POp::L(d.0, d.1), POp::Z] });
                     }
                 }
             }
